@@ -710,6 +710,32 @@ def i_cutsuffix(ex, st, g, args, pos):
     return lift_str(ex, st, args[:2], one)
 
 
+@intr('strings.TrimSuffix', 'bytes.TrimSuffix', 'internal/stringslite.TrimSuffix')
+def i_trimsuffix(ex, st, g, args, pos):
+    def one(s, suf):
+        h = s_has_suffix(s, suf)
+        e = ite(h, i_bin('-', s.ln, suf.ln, W, True), s.ln, W)
+        if not is_c(e):
+            set_ub(e, s.cap)
+        return s_substr(s, 0, e)
+    return lift_str(ex, st, args[:2], one)
+
+
+@intr('strings.TrimPrefix', 'bytes.TrimPrefix', 'internal/stringslite.TrimPrefix')
+def i_trimprefix(ex, st, g, args, pos):
+    def one(s, pre):
+        h = s_has_prefix(s, pre)
+        b = ite(h, pre.ln, 0, W)
+        if not is_c(b):
+            set_ub(b, min(s.cap, pre.cap))
+        return s_substr(s, b, s.ln)
+    return lift_str(ex, st, args[:2], one)
+
+
+INTR['internal/stringslite.HasSuffix'] = i_hassuffix
+INTR['internal/stringslite.HasPrefix'] = i_hasprefix
+
+
 def match_at(s, p, sub):
     """condition: sub occurs in s at concrete position p (sub may be symbolic); early exit on mismatch"""
     conds = []
